@@ -621,8 +621,24 @@ func c10catcher(o *out, id, G, M, procs int, allNonNil bool, seed uint64) {
 		}
 		got = append(got, [2]int64{p, s})
 	}
+	// Resolve reports every retained error: its text has one line per error (an incomplete report counts as none)
+	resolved := c.Resolve()
+	resOK := resolved != nil
+	if resolved != nil && len(want) > 0 {
+		lines := map[string]int{}
+		for _, l := range strings.Split(resolved.Error(), "\n") {
+			lines[l]++
+		}
+		for _, w := range want {
+			k := fmt.Sprintf("e%d.%d", w[0], w[1])
+			if lines[k] == 0 {
+				resOK = false
+			}
+			lines[k]--
+		}
+	}
 	o.printf("CAT id=%d G=%d M=%d procs=%d seed=%d len=%d has=%d res=%d mono=%d panics=%d want=%s got=%s\n",
-		id, G, M, procs, seed, c.Len(), b2i(c.HasErrors()), b2i(c.Resolve() != nil), mono, atomic.LoadInt32(&panics),
+		id, G, M, procs, seed, c.Len(), b2i(c.HasErrors()), b2i(resOK), mono, atomic.LoadInt32(&panics),
 		joinPairs(want), joinPairs(got))
 }
 
